@@ -364,17 +364,16 @@ impl ForwardedStreamSink {
             return Ok(data);
         }
 
-        let chunk_size = data.len();
         let unsent = state.sink.write(data.slice(..to_send))?;
-        state.sent_bytes += (chunk_size - unsent.len()) as u64;
+        // bytes beyond the announced length are not part of the body
+        let accepted = to_send - unsent.len();
+        state.sent_bytes += accepted as u64;
 
         if Some(state.sent_bytes) == state.body_length {
-            assert!(unsent.is_empty());
-            assert_eq!(data.len(), to_send);
             state.sink.eof()?;
         }
 
-        Ok(data.split_off(to_send - unsent.len()))
+        Ok(data.split_off(accepted))
     }
 
     fn on_encoded_chunk_prefix(&mut self, data: Bytes) -> io::Result<Bytes> {
